@@ -1127,10 +1127,40 @@ def _native_histories(tier="quick", seed=0):
         prs.save(buf)
         return buf.getvalue()
 
+    def odd_rids_deck():
+        """relationship ids as other producers write them (Open XML SDK 'R<hex>', zero-padded, unprefixed, mixed): re-spelled in the zip,
+        in every .rels item and at every reference in the part XML"""
+        import re
+        import zipfile
+
+        prs = Presentation()
+        for i in range(2):
+            sl = prs.slides.add_slide(prs.slide_layouts[1])
+            sl.shapes.add_picture(io.BytesIO(png((10 * i, 1, 2))), 0, 0)
+            sl.shapes.add_textbox(0, 0, 10, 10).text_frame.paragraphs[0].add_run().hyperlink.address = "http://x/%d" % i
+            sl.shapes.add_chart(XL_CHART_TYPE.PIE, 0, 0, Inches(1), Inches(1), cd())
+        buf = io.BytesIO()
+        prs.save(buf)
+        src = zipfile.ZipFile(io.BytesIO(buf.getvalue()))
+        out = io.BytesIO()
+        spell = lambda n, k: ["R%x%s" % (0xabc0 + n, "de"), "rId0%d" % n, "id%d" % n, "rId%da" % n, "Rel-%d" % n][k % 5]
+        with zipfile.ZipFile(out, "w") as z:
+            for n in src.namelist():
+                d = src.read(n)
+                m = re.fullmatch(r"(.*/)?_rels/([^/]+)\.rels", n)
+                if m and "slides/" in n and "slideLayouts" not in n and "notes" not in n:
+                    k = int(re.findall(r"\d+", m.group(2))[-1])
+                    d = re.sub(rb'Id="rId(\d+)"', lambda mm: b'Id="%s"' % spell(int(mm.group(1)), int(mm.group(1)) + k).encode(), d)
+                elif re.fullmatch(r"ppt/slides/slide\d+\.xml", n):
+                    k = int(re.findall(r"\d+", n)[-1])
+                    d = re.sub(rb'(r:(?:id|embed|link|pict))="rId(\d+)"', lambda mm: mm.group(1) + b'="%s"' % spell(int(mm.group(2)), int(mm.group(2)) + k).encode(), d)
+                z.writestr(n, d)
+        return out.getvalue()
+
     N = 40 if tier == "quick" else 600
     L = 10 if tier == "quick" else 16
     perms = [(7, 3, 9), (1, 4, 3), (2, 1, 3), (1, 3, 2), (3, 2, 1), (2, 3, 4), (1, 2, 4), (1, 5, 3, 4)]
-    starts = [("default_template", None), ("unused_layout_with_picture", layout_picture_deck())] + [("slide_parts_named_%s" % "_".join(map(str, q)), out_of_order_deck(q)) for q in perms]
+    starts = [("default_template", None), ("unused_layout_with_picture", layout_picture_deck()), ("relationship_ids_in_other_spellings", odd_rids_deck())] + [("slide_parts_named_%s" % "_".join(map(str, q)), out_of_order_deck(q)) for q in perms]
     for label, start in starts:
         rnd = random.Random(seed * 7919 + (1 if start else 0))
         bad = None
